@@ -14,6 +14,7 @@ import (
 	"fmt"
 	"io"
 	"net"
+	"os"
 	"sync/atomic"
 	"time"
 
@@ -199,7 +200,10 @@ func setupServeConn(w *world, flavour string) stepResult {
 
 func setupListener(w *world, flavour string) stepResult {
 	h := newSetupHook(flavour)
-	srv := erpc.NewPeer(erpc.PeerConfig{LocalIP: "127.0.0.1", ListenPort: 0}, h)
+	// a concrete port of this process's own range: with ListenPort 0 every listening peer of the process has the listen
+	// address "127.0.0.1:0", under which the framework's inherited-listener table hands a second, overlapping listener the
+	// first one's entry - ListenAndServe then ends the process (Fatalf) while the previous step's peer is still closing
+	srv := erpc.NewPeer(erpc.PeerConfig{LocalIP: "127.0.0.1", ListenPort: pickPort()}, h)
 	if flavour != "peer-close" {
 		defer func() { go srv.Close() }()
 	}
@@ -261,4 +265,20 @@ func setupSteps() []stepDef {
 			stepDef{"setup-closed:listener+" + f, 1, func(w *world) stepResult { return setupListener(w, f) }})
 	}
 	return out
+}
+
+var portSeq int32
+
+// pickPort returns a free loopback port from a range derived from the process id (batches run in parallel).
+func pickPort() uint16 {
+	base := 30000 + (os.Getpid()%500)*40
+	for i := 0; i < 40; i++ {
+		p := base + int(atomic.AddInt32(&portSeq, 1))%40
+		l, err := net.Listen("tcp", fmt.Sprintf("127.0.0.1:%d", p))
+		if err == nil {
+			l.Close()
+			return uint16(p)
+		}
+	}
+	return 0
 }
